@@ -259,9 +259,11 @@ CONFIG = {
                 "by another JSON type / dropped / duplicated (30%), byte-level = hostile constants, truncation, byte flips, junk "
                 "insertion, deep nesting (20%); sent to the in-process handler (every case, 30 s watchdog, lowered max stack) and to "
                 "the real server process (10% of the case count; liveness after every request, known-good request re-checked every "
-                "50). Oracle: 200 with result+biases arrays (valid: also a well-formed ranking) or 400 with non-empty error and echoed "
-                "request, nothing else; constraint mutants never answered with a ranking; unknown method/bias errors list every "
-                "registered name; process survives; GET /api/preferenceFunctions has a schema object per method. Non-trivial = body "
+                "50). Oracle: 200 with result+biases arrays (valid: also a well-formed ranking) or 400 with non-empty error and the "
+                "echoed request equal (as a JSON value) to the request that was sent, nothing else; constraint mutants (the offending "
+                "bias first or last in the list) never answered with a ranking; unknown method/bias errors list every registered "
+                "name; process survives, also a hostile class of small bodies with 20-70 Choquet criteria under an 8 GiB address-"
+                "space limit; GET /api/preferenceFunctions has a schema object per method whose local $refs all resolve. Non-trivial = body "
                 "that passes JSON binding (reaches MakeDecision); distinct by (kind, mutation, body)",
         "assumptions": ["bodies <= 64 KiB; generated requests have <= 6 criteria and <= 7 alternatives, one hostile class declares 20-70 Choquet criteria without their 2^n weights; the test processes and the server child run under an 8 GiB address-space limit so that unbounded allocation kills them (a violation) rather than the machine; other resource exhaustion by size (e.g. a valid 20-criteria Choquet request with its million weights) is outside what is explored",
                         "a valid request answered 400 only because its result is not finite (json: unsupported value) is counted, not judged (C07 decides combinations)"],
